@@ -24,7 +24,7 @@ use vengine::{Fail, Obs};
 /// the slowest legitimate ones (iteration cap reached four times with six classes) a few seconds
 pub fn case_timeout_s(sub: &str) -> u64 {
     match sub {
-        "glm" => 8,
+        "glm" => 6,
         _ => 60,
     }
 }
